@@ -11,6 +11,7 @@ import time
 from . import sym
 
 VERIF = os.path.dirname(os.path.dirname(os.path.abspath(__file__)))
+OUT = os.environ.get('PYVC_OUTDIR') or VERIF   # evidence/ and replays/ go here (scratch dir for runs on patched copies)
 
 GLOBAL_ASSUMPTIONS = [
     'the VC generator pyvc itself (mitigated by native replay of every counter-model and the mutation self-test)',
@@ -136,7 +137,7 @@ class Report:
     # -- finish ---------------------------------------------------------------------------------------------------
     def _replay_path(self, key):
         safe = re.sub(r'[^A-Za-z0-9_.\-]+', '_', key)[:120]
-        d = os.path.join(VERIF, 'replays')
+        d = os.path.join(OUT, 'replays')
         os.makedirs(d, exist_ok=True)
         return os.path.join(d, f'{self.prop}-{safe}.json')
 
@@ -269,7 +270,7 @@ class Report:
         cov.update(self.extra)
         doc = {'property_id': self.prop, 'tier': self.tier, 'seed': self.seed, 'level': self.level, 'coverage': cov,
                'assumptions': self.assumptions, 'wall_s': round(time.time() - self.t0, 2), 'violations': nviol}
-        d = os.path.join(VERIF, 'evidence')
+        d = os.path.join(OUT, 'evidence')
         os.makedirs(d, exist_ok=True)
         with open(os.path.join(d, f'{self.prop}.json'), 'w') as f:
             json.dump(doc, f, indent=1, default=str)
